@@ -35,7 +35,8 @@ class OctBinding(NativeKeyBinding):
     @classmethod
     def import_from_bytes(cls, value: bytes, password: Any | None = None) -> bytes:
         # security check
-        if value.startswith(POSSIBLE_UNSAFE_KEYS):
+        # PEM and OpenSSH readers skip leading whitespace, so look behind it
+        if value.lstrip().startswith(POSSIBLE_UNSAFE_KEYS):
             warnings.warn("This key may not be safe to import")
         return value
 
